@@ -160,6 +160,61 @@ def run(cmd, env=None, cwd=None, timeout=1800):
     return p.returncode, p.stdout
 
 
+def seeded(args):
+    """Re-run every kept seeded change (/verif/seeded/<id>/patch.diff) on a scratch
+    copy: the pinned suite must pass, the demo must fail, and the property's check
+    must report a violation (or stay green for an entry recorded as out of scope)."""
+    import json
+
+    props = set(args.props.split(","))
+    only = set(args.only.split(",")) if args.only else None
+    repo = os.path.abspath(args.repo)
+    base = "/dev/shm" if os.path.isdir("/dev/shm") else None
+    sdir = os.path.join(ROOT, "seeded")
+    problems = 0
+    rows = []
+    for sid in sorted(os.listdir(sdir)):
+        meta_path = os.path.join(sdir, sid, "meta.json")
+        if not os.path.exists(meta_path):
+            continue
+        with open(meta_path) as f:
+            meta = json.load(f)
+        prop = meta["property"]
+        if prop not in props or (only and sid not in only):
+            continue
+        scratch = tempfile.mkdtemp(prefix="ural-seed-", dir=base)
+        try:
+            for name in ("ural", "test"):
+                shutil.copytree(os.path.join(repo, name), os.path.join(scratch, name), ignore=shutil.ignore_patterns("__pycache__", "*.pyc"))
+            rc_a, out_a = run(["git", "apply", os.path.join(sdir, sid, "patch.diff")], cwd=scratch)
+            if rc_a != 0:
+                rows.append((sid, "PATCH-DOES-NOT-APPLY"))
+                print(rows[-1], out_a[-300:])
+                problems += 1
+                continue
+            env = dict(os.environ, PYTHONPATH=scratch, PYTHONDONTWRITEBYTECODE="1")
+            rc_t, _ = run(["/venv/bin/python", "-m", "pytest", "-q", "-p", "no:cacheprovider", "-x"], env=env, cwd=scratch)
+            rc_d, _ = run(["/venv/bin/python", "-B", os.path.join(sdir, sid, "demo.py")], env=env, cwd=scratch, timeout=600)
+            cmd = [sys.executable, "-B", os.path.join(ROOT, "run_check.py"), prop, "--repo", scratch, "--evidence-dir", "none", "--minimise-s", "10"]
+            if args.runs:
+                cmd += ["--runs", str(args.runs)]
+            rc, out = run(cmd)
+            first = [l for l in out.splitlines() if l.startswith("violation:")][:1]
+            note = [l for l in out.splitlines() if l.startswith("NOTE")][:1]
+            expect_violation = meta.get("detected") == "yes"
+            ok = (rc == 1) if expect_violation else (rc == 0)
+            verdict = ("caught" if rc == 1 else "green") if rc in (0, 1) else "HARNESS-ERROR"
+            rows.append((sid, "tests %s" % ("pass" if rc_t == 0 else "FAIL"), "demo %s" % ("fails" if rc_d != 0 else "PASSES"), verdict, "as recorded" if ok else "UNEXPECTED", (first or note or [""])[0][:150]))
+            print(rows[-1])
+            sys.stdout.flush()
+            if not ok or rc_t != 0 or rc_d == 0:
+                problems += 1
+        finally:
+            shutil.rmtree(scratch, ignore_errors=True)
+    print("seeded: %d entries, %d problems" % (len(rows), problems))
+    return 1 if problems else 0
+
+
 def main(args):
     props = set(args.props.split(","))
     only = set(args.only.split(",")) if args.only else None
